@@ -828,6 +828,11 @@ func (in *Interp) call(fnv Value, args []Value, g *Term, cc *ssa.CallCommon) Val
 				}
 				abortf("invoke %s on non-interface %s at %s", cc.Method.Name(), in.show(v), in.where())
 			}
+			if itf.t == nil && noopIfaceType(cc.Value.Type()) {
+				// e.g. a package-level prometheus counter whose initialiser is not run
+				in.stubLog["noop-object:"+cc.Method.Name()]++
+				return in.noopResults(cc.Signature(), args)
+			}
 			if itf.t == nil {
 				in.withGuard(gg, func() { in.rtCheck(in.ts.True, "invalid memory address or nil pointer dereference (nil interface method call "+cc.Method.Name()+")") })
 				return in.zeroResults(cc.Signature())
